@@ -373,7 +373,7 @@ class UDPL(VSchedCheck):
     harness = "udpl"
     hbin = "h_udpl"
     model_entry = "udp_model"
-    instrument = {"udp/conn.go": ("udp", "net.ListenUDP=vListenUDP")}
+    instrument = {"udp/conn.go": ("udp", "net.ListenUDP=vListenUDP,NewBatchConn=vNewBatchConn")}
     extra_overlay = {"udp/verif_export.go": "udp/verif_export.go"}
     quick_n = 2400
     thorough_n = 80000
@@ -381,11 +381,13 @@ class UDPL(VSchedCheck):
     rule = ("sequential histories on the real ListenConfig.Listen code over an in-memory socket (net.ListenUDP substituted in the copy of conn.go "
             "regenerated from the working tree): 15-75 operations: datagram from one of 7 remotes (sharing IPs and ports crosswise) with 1-5 byte "
             "payloads, Accept, Conn.Read (64/2/0 byte slices), Conn.Close, listener Close, then everything closed in a random order; backlog "
-            "1/2/3/128, accept filters none / first byte odd / reject all; every observation carries 'socket closed?'; non-trivial = at least 2 "
+            "1/2/3/128, accept filters none / first byte odd / reject all; remotes IPv4 / IPv6 (loopback, link-local differing only in zone) / mixed; "
+            "batch reading off or on with ReadBatchSize 2/3/8 (arrivals then pile up and are returned several per ReadBatch call by the in-memory "
+            "socket, NewBatchConn substituted in the same way as net.ListenUDP); every observation carries 'socket closed?'; non-trivial = at least 2 "
             "accepted connections and 3 delivered datagrams; distinct = distinct (config, operations)")
     trusted = ["tools/vrewrite (here only the call substitution net.ListenUDP -> in-memory socket matters; yield hooks are off)",
                "overlay file harness/overlay/udp/verif_export.go (queue length / buffered count accessors)", "testing/synctest (quiescence after each operation)"]
-    assumptions = ["operations are issued one at a time (each completes before the next starts)", "IPv4 remotes"]
+    assumptions = ["operations are issued one at a time (each completes before the next starts)"]
 
     def shrink(self, line, pred):
         return SeqCheck.shrink(self, line, pred)
@@ -407,8 +409,8 @@ class C11(UDPL):
                   "filter and the backlog has room, else nothing changes; reads are FIFO per connection; Close unmaps the remote so that a later "
                   "datagram creates a fresh connection. Tied to the code by differential histories against the real ListenConfig.Listen/readLoop/getConn "
                   "running on an in-memory socket in synctest bubbles")
-    level_note = ("trusted: Coq kernel, extraction + driver, harness; the OS socket is replaced by an in-memory PacketConn (kernel UDP delivery is not "
-                  "exercised); batch reading (readBatch) is not exercised by this check; operations are sequential (interleavings are C12's subject)")
+    level_note = ("trusted: Coq kernel, extraction + driver, harness; the OS socket is replaced by an in-memory PacketConn (kernel UDP delivery and recvmmsg are not "
+                  "exercised; readBatch runs against an in-memory batch reader); operations are sequential (interleavings are C12's subject)")
 
 
 class C12(UDPL):
